@@ -83,8 +83,15 @@ impl Prop for Voicing {
             if t.chance(0.5) {
                 let e = t.dyadic(3, 32, 64);
                 let mut w = vec![0.0; voices.len()];
-                w[0] = 1.0 + e;
-                w[1] = -e;
+                if voices.len() >= 3 && t.chance(0.5) {
+                    // one weight exactly 1 while two others cancel: still three voices' average
+                    w[0] = 1.0;
+                    w[1] = e;
+                    w[2] = -e;
+                } else {
+                    w[0] = 1.0 + e;
+                    w[1] = -e;
+                }
                 if (w.iter().sum::<f64>() - 1.0).abs() <= f64::EPSILON {
                     weights[2] = w;
                     if t.chance(0.6) {
